@@ -53,6 +53,12 @@ class T(ast.NodeTransformer):
             return ast.Call(func=self._vf('m_join'), args=[f.value, node.args[0]], keywords=[])
         return node
 
+    def visit_BinOp(self, node):
+        self.generic_visit(node)
+        if isinstance(node.op, ast.Mod) and isinstance(node.left, ast.Constant) and isinstance(node.left.value, str):
+            return ast.Call(func=self._vf('fmt'), args=[node.left, node.right], keywords=[])
+        return node
+
     def visit_Subscript(self, node):
         self.generic_visit(node)
         if isinstance(node.slice, ast.Slice) and isinstance(node.ctx, ast.Load):
